@@ -138,7 +138,11 @@ pub fn may_hit_limit(name: &str) -> bool {
         // the format is an argument too
         return n > 254;
     }
-    if name.starts_with("branch-bodies-") || name.starts_with("loop-body-") || name.starts_with("else-if-arms-") || name.starts_with("functions-") || name.starts_with("locals-") || name.starts_with("locals-ops-") || name.starts_with("float-locals-") {
+    if name.starts_with("else-if-arms-") {
+        // every `anders als` is a level of nesting: the limit of 256 levels applies (minus the levels around the chain)
+        return n >= 240;
+    }
+    if name.starts_with("branch-bodies-") || name.starts_with("loop-body-") || name.starts_with("functions-") || name.starts_with("locals-") || name.starts_with("locals-ops-") || name.starts_with("float-locals-") {
         // ~7-12 bytes of code per statement / arm inside one jump range
         return n >= 4095;
     }
